@@ -91,14 +91,16 @@ class Instr:
 
         for n, (w, pats) in self._rules.items():
             self.R.rules[n] = (mk(n, w), pats)
-        self._filter = self.PP.PartialParse._filter_rules
+        # the applicability analysis is recorded where the library still has it under this name; without it the
+        # 'analyse' events are simply absent (the scorings of the candidate sequences are still observed)
+        self._filter = getattr(self.PP.PartialParse, "_filter_rules", None)
         orig_filter = self._filter
+        if orig_filter is not None:
+            def filt(pp_self, *a, **kw):
+                ev.append(("analyse", clock.t, clock.nchecks, -1))
+                return orig_filter(pp_self, *a, **kw)
 
-        def filt(pp_self, *a, **kw):
-            ev.append(("analyse", clock.t, clock.nchecks, -1))
-            return orig_filter(pp_self, *a, **kw)
-
-        self.PP.PartialParse._filter_rules = filt
+            self.PP.PartialParse._filter_rules = filt
         return self
 
     def __exit__(self, *a):
@@ -108,7 +110,8 @@ class Instr:
         self.clock.in_check = None
         for n, v in self._rules.items():
             self.R.rules[n] = v
-        self.PP.PartialParse._filter_rules = self._filter
+        if self._filter is not None:
+            self.PP.PartialParse._filter_rules = self._filter
 
     def reset(self):
         self.clock.t = 0
